@@ -72,6 +72,20 @@ def import_from(it, module, name):
         import copy
 
         return copy.deepcopy
+    if module == "copy" and name == "copy":
+        def _shallow(it_, a, k):
+            o = a[0]
+            if isinstance(o, Obj):
+                n = Obj(o.cls, it_.ctx.new_id())
+                n.fields = dict(o.fields)  # shallow: the field VALUES (lists included) are shared with the original
+                return n
+            if isinstance(o, (list, dict, set)):
+                return o.copy()
+            if isinstance(o, (tuple, frozenset, str, int, float, bool, type(None))):
+                return o
+            raise Unsupported(f"copy.copy of {type(o).__name__}")
+
+        return SummaryFn("copy.copy", _shallow)
     if module == "textwrap":
         import textwrap
 
@@ -80,6 +94,15 @@ def import_from(it, module, name):
         return SummaryFn("contextmanager", lambda it_, a, k: a[0])
     if module == "contextvars" and name == "ContextVar":
         return SummaryFn("ContextVar", lambda it_, a, k: make_contextvar(it_, a, k))
+    # exception classes of installed libraries are plain data for the engine (raised / caught by identity of the class)
+    try:
+        import importlib
+
+        obj = getattr(importlib.import_module(module), name)
+        if isinstance(obj, type) and issubclass(obj, BaseException):
+            return obj
+    except Exception:  # noqa
+        pass
     raise Unsupported(f"from {module} import {name}")
 
 
